@@ -7,7 +7,8 @@
         Forall file_wf fs ->                         (* per file: blocks non-empty, strictly increasing inside,
                                                         ordered and non-overlapping, entry = first/last timestamp;
                                                         arbitrary overlap ACROSS files; any tombstone ranges *)
-        MinInt64 < t < MaxInt64 ->                    (* at t = MinInt64 the code's [t-1] wraps *)
+        MinInt64 <= t <= MaxInt64 ->                  (* every int64 seek time: the [t-1]/[t+1] wrap at the
+                                                        extremes is guarded in [locations] (repaired) *)
         (length (locations fs t asc) <= 12)%nat ->     (* sort.Sort = insertion sort (see Model/C06.v); beyond 12
                                                         the statement is FALSE for the real code:
                                                         [C06_over_12_locations_refuted] *)
@@ -23,10 +24,12 @@
       - the ORDER fact the newest-wins half rests on ([C06_sort_overlapping_in_generation_order]):
         insertion sort with the non-transitive comparator leaves any two time-overlapping locations
         in generation order (the older file first), for any number of locations.
-    REFUTED outside the hypotheses of the full statement (both confirmed on the real code):
+    REFUTED outside the hypotheses of the full statement (confirmed on the real code):
       - [C06_over_12_locations_refuted]: with more than 12 locations [sort.Sort] is pdqsort and the
         cursor returns an overwritten value (known finding over-12-locations-sort-breaks-newest-wins);
-      - [C06_seek_at_int64_extreme_refuted]: seek at MinInt64 / MaxInt64 returns nothing.
+      (the former second refutation, seek at MinInt64 / MaxInt64 returning nothing because [t-1]/[t+1]
+       wrapped in [locations], has been REPAIRED in the code: [C06_seek_respected_all_int64] and
+       [C06_seek_at_int64_extreme] below).
     The COMPLETENESS half (every live point is returned, exactly once, with the newest value, blocks in
     order) is proved only on a finite family ([C06_keycursor_spec_small_partial], by exhaustive
     evaluation, bound in the statement); beyond it, it is only tested: the correspondence check
@@ -42,8 +45,7 @@ Theorem C06_returned_points_sound_partial :
     Forall (fun v => v <> [] /\ ssorted v /\
               Forall (fun p => exists f b, In f fs /\ In b (f_blocks f) /\ In p (b_data b) /\
                                  dead (f_tombs f) p = false /\
-                                 (if asc then ~ (MinInt64 <= tm p <= sub1_64 t)
-                                  else ~ (add1_64 t <= tm p <= MaxInt64))) v) bs.
+                                 ~ (init_rmin asc t <= tm p <= init_rmax asc t)) v) bs.
 Proof.
   intros V fs t asc bs Hs [H|H].
   - exact (run_cursor_sound arr_merge (@merge_sorted V) (@arr_merge_In_weak V) fs t asc bs Hs H).
@@ -80,21 +82,27 @@ Theorem C06_keycursor_spec_small_partial :
 Proof. exact small_layouts_spec. Qed.
 Print Assumptions C06_keycursor_spec_small_partial.
 
-(** Without the restriction on the seek time the statement is FALSE for the code as written:
-    [locations] computes [readMax = t-1] (ascending) / [readMin = t+1] (descending) in int64, so a
-    seek at MinInt64 / MaxInt64 marks EVERYTHING read and the cursor returns nothing.  Replayed on the
-    real KeyCursor (replays/C06-seek-int64-extreme.json): it returns no block either. *)
-Theorem C06_seek_at_int64_extreme_refuted :
-  exists (fs : list (tfile Z)),
-    forallb file_wf_b fs = true /\
-    run_cursor arr_merge fs MinInt64 true = Some [] /\ live_points_newest_wins fs MinInt64 true <> [] /\
-    run_cursor arr_merge fs MaxInt64 false = Some [] /\ live_points_newest_wins fs MaxInt64 false <> [].
-Proof.
-  exists [ {| f_blocks := [ {| b_min := 0; b_max := 2; b_data := [(0, 10); (1, 10); (2, 10)] |} ];
-             f_tombs := []; f_tmin := 0; f_tmax := 2 |} ].
-  vm_compute. repeat split; discriminate.
-Qed.
-Print Assumptions C06_seek_at_int64_extreme_refuted.
+(** "Outside the initial read range" means exactly "at or after (before, if descending) the seek time",
+    for EVERY int64 seek time including MinInt64 / MaxInt64 (where the unguarded [t-1] / [t+1] used to
+    wrap and mark everything read; finding seek-at-int64-extreme-wraps, repaired). *)
+Theorem C06_seek_respected_all_int64 :
+  forall (asc : bool) (t x : Z), MinInt64 <= t <= MaxInt64 -> MinInt64 <= x <= MaxInt64 ->
+    (~ (init_rmin asc t <= x <= init_rmax asc t) <-> if asc then t <= x else x <= t).
+Proof. exact init_range_seek. Qed.
+Print Assumptions C06_seek_respected_all_int64.
+
+(** The former refutation witness is now read correctly: a seek at MinInt64 ascending / MaxInt64
+    descending returns the whole block (replays/C06-seek-int64-extreme.json on the real code). *)
+Example C06_seek_at_int64_extreme :
+  let fs := [ {| f_blocks := [ {| b_min := 0; b_max := 2; b_data := [(0, 10); (1, 10); (2, 10)] |} ];
+                 f_tombs := []; f_tmin := 0; f_tmax := 2 |} ] in
+  forallb file_wf_b fs = true /\
+  run_cursor arr_merge fs MinInt64 true = Some [[(0, 10); (1, 10); (2, 10)]] /\
+  live_points_newest_wins fs MinInt64 true = [(0, 10); (1, 10); (2, 10)] /\
+  run_cursor vals_merge fs MaxInt64 false = Some [[(0, 10); (1, 10); (2, 10)]] /\
+  live_points_newest_wins fs MaxInt64 false = [(0, 10); (1, 10); (2, 10)] /\
+  run_cursor arr_merge fs MinInt64 false = Some [] /\ run_cursor arr_merge fs MaxInt64 true = Some [].
+Proof. vm_compute. repeat split; reflexivity. Qed.
 
 (** More than 12 locations: Go's [sort.Sort] is then pdqsort, and because [Less] is not a strict weak
     order its result is not determined by [Less]; it can put a block of a NEWER file before an
@@ -118,7 +126,7 @@ Definition w13_order : list (nat * Z) :=
 
 Theorem C06_over_12_locations_refuted :
   let t := -9223372036854775806 in
-  forallb file_wf_b w13_files = true /\ MinInt64 < t < MaxInt64 /\
+  forallb file_wf_b w13_files = true /\ MinInt64 <= t <= MaxInt64 /\
   length (locations w13_files t true) = 13%nat /\
   exists s bs,
     reorder (locations w13_files t true) w13_order = Some s /\
